@@ -75,6 +75,13 @@ WORLD_OP = st.one_of(
 ).map(list)
 
 
+# worker-thread jobs of the mempool refresh and of the block processor, and the (execution delay,
+# delivery delay) a slow_job operation gives the n-th further one of a name
+SLOW_JOBS = ['lookup_hashXs', 'lookup_utxos', 'deserialize_txs', 'lookup_hashXs', 'lookup_utxos',
+             'flush_dbs', 'advance_block', 'backup_block']
+SLOW_MODES = [(0.0, 3.0), (0.0, 8.0), (3.0, 0.0), (8.0, 0.0)]
+
+
 def op_strategy(races):
     ops = [WORLD_OP, WORLD_OP, WORLD_OP,
            st.tuples(st.just('sleep'), st.integers(0, len(SLEEPS) - 1)).map(list),
@@ -83,6 +90,8 @@ def op_strategy(races):
         ops = [st.tuples(st.just('at_call'), st.integers(1, 6), WORLD_OP).map(list)] * 5 + ops
         ops += [st.tuples(st.just('miss'), st.integers(1, 2), BLOCK).map(list)] * 2
         ops += [st.tuples(st.just('vanish'), st.integers(1, 6), st.integers(0, 9)).map(list)] * 2
+        ops += [st.tuples(st.just('slow_job'), st.integers(0, len(SLOW_JOBS) - 1), st.integers(1, 3),
+                          st.integers(0, len(SLOW_MODES) - 1)).map(list)] * 2
     return st.one_of(*ops)
 
 
@@ -422,6 +431,11 @@ class MempoolMachine:
                     self.deferred.append([op[1], op[2]])
                 elif kind == 'vanish':
                     self.deferred.append([op[1], ['mp_vanish', op[2]]])
+                elif kind == 'slow_job':
+                    t1, t2 = SLOW_MODES[op[3]]
+                    if len(loop.slow_jobs) < 4:
+                        loop.slow_jobs.append([SLOW_JOBS[op[1]], op[2], t1, t2])
+                        self.info['classes'].add('slow_job.' + SLOW_JOBS[op[1]])
                 elif kind == 'miss':
                     # UTXO lookups miss: a new tx spends the newest confirmed output, the lookup
                     # job is slow, and meanwhile a fork undoes the block that created that output
